@@ -227,49 +227,19 @@ def supplied_elements(fields, values, append_args=()):
 RETOKENISE_CHARS = set(" \t\n'\"\\")
 
 
-def retokenised_reading(executable, fields, values, append_args=()):
-    """NOT the documented semantics -- the deviating behaviour named by the known finding
-    `value-contains-whitespace-quote-or-backslash-retokenised` (used only to classify a failure
-    narrowly): the argument text built for a field is tokenised a second time with POSIX shell
-    rules (so white space splits, quotes and backslashes are consumed, an unbalanced quote is an
-    error) and a token still enclosed in one pair of matching quotes loses them.  Returns the
-    list of admissible results under that reading; the string "ValueError" stands for the
-    'No closing quotation' / 'No escaped character' error."""
-    import re
+def only_tokeniser_damage(got, expected_alternatives):
+    """class predicate for the known finding `value-contains-whitespace-quote-or-backslash-
+    retokenised` (used only to classify a failure narrowly, never to accept a result): the
+    observed argv differs from a documented one ONLY in white space, quotes, backslashes and
+    argument boundaries -- every other character arrives, in order, nothing is added -- or the
+    command could not be built because of an unbalanced quote / dangling backslash."""
+    if got[:1] == ["error"]:
+        return got[1] == "ValueError" and any(m in got[2] for m in ("No closing quotation", "No escaped character"))
 
-    def retok(tokens_alts):
-        outs = []
-        for toks in tokens_alts:
-            try:
-                parts = shlex.split(" ".join(toks))
-            except ValueError:
-                outs.append("ValueError")
-                continue
-            res = []
-            for p in parts:
-                m = re.match("(['\"])(.*)\\1$", p)
-                res.append(m.group(2) if m else p)
-            outs.append(res)
-        return outs
+    def squash(argv):
+        return "".join(c for c in "".join(argv) if c not in RETOKENISE_CHARS)
 
-    per_field = []
-    for f in field_order(fields):
-        v = values.get(f["name"])
-        alts = contribution(f, v)
-        if f["kind"] == "bool":
-            per_field.append(alts)
-        else:
-            per_field.append(retok(alts))
-    out = []
-    for combo in itertools.product(*per_field):
-        if any(c == "ValueError" for c in combo):
-            if "ValueError" not in out:
-                out.append("ValueError")
-            continue
-        argv = exe_tokens(executable) + sum((list(c) for c in combo), []) + [render(a) for a in append_args]
-        if argv not in out:
-            out.append(argv)
-    return out
+    return any(squash(got) == squash(e) for e in expected_alternatives)
 
 
 def posix_split(cmdline):
@@ -282,3 +252,203 @@ def needs_more_than_space_quoting(arg):
     """class predicate for C24: an argument that a shell rendering has to quote or escape for a
     reason other than containing a plain space"""
     return arg == "" or any(c in arg for c in "\t\n'\"\\")
+
+
+# --------------------------------------------------------------------------------------
+# C25 : the documented command-line template grammar (docs/source/tutorial/5-shell.ipynb,
+#       "Command-line templates", "Defining input/output types", "Flags and options",
+#       "Defaults", "Path templates for output files"; shell.define docstring)
+# --------------------------------------------------------------------------------------
+#   template := executable-word+ item*
+#   item     := arg | option " " arg | option arg(flag form, no space => boolean)
+#   arg      := "<" ["out|"] name [":" type] [ "?" | "+" | "*" | "=" default | "$" path-template ] ">"
+#   option   := "-" letter | "--" word
+# An item is a dict: form ("pos" | "opt" | "flag"), name, out (bool), type (str|None),
+# mod ("" | "?" | "+" | "*" | "=" | "$"), default (python value for "="), default_text (its
+# spelling), path_template (for "$"), option (str for opt/flag).
+
+TYPE_EXT = {"image/png": ".png", "text/csv": ".csv", "application/gzip": ".gz"}  # formats with a fixed extension
+
+
+def tmpl_item_text(it):
+    inner = ("out|" if it.get("out") else "") + it["name"]
+    if it.get("type"):
+        inner += ":" + it["type"]
+    mod = it.get("mod", "")
+    if mod in ("?", "+", "*"):
+        inner += mod
+    elif mod == "=":
+        inner += "=" + it["default_text"]
+    elif mod == "$":
+        inner += "$" + it["path_template"]
+    if it["form"] == "pos":
+        return "<%s>" % inner
+    if it["form"] == "opt":
+        return "%s <%s>" % (it["option"], inner)
+    return "%s<%s>" % (it["option"], inner)
+
+
+def tmpl_text(executable, items):
+    return " ".join(exe_tokens(executable) + [tmpl_item_text(it) for it in items])
+
+
+def tmpl_n_tokens(executable, items):
+    return len(tmpl_text(executable, items).split())
+
+
+def tmpl_fields(items):
+    """what the docs say the template defines: name -> descriptor
+    base      type name as written; default 'fs-object' for arguments, 'str' after an option,
+              'bool' for the flag form
+    optional  '?'                     -> type `T | None`, default None
+    multi     '+' (>= 1 required, no default) / '*' (default: empty list) -> MultiInputObj[T]
+    default   ('mandatory',) | ('none',) | ('empty-list',) | ('value', v) | ('template',)
+    argstr    the option the field follows, '' for a positional argument
+    out       output field (also an input naming the path); path_template as written after '$',
+              else the field name plus the format's extension if it has one
+    index     1-based place in the template (argv order)"""
+    out = {}
+    for i, it in enumerate(items):
+        form, mod = it["form"], it.get("mod", "")
+        if form == "flag":
+            d = dict(base="bool", optional=False, multi=False, default=("value", it.get("default", False)), argstr=it["option"], out=False, path_template=None)
+        else:
+            base = it.get("type") or ("fs-object" if form == "pos" else "str")
+            if mod == "?":
+                default = ("none",)
+            elif mod == "*":
+                default = ("empty-list",)
+            elif mod == "=":
+                default = ("value", it["default"])
+            else:
+                default = ("mandatory",)
+            d = dict(base=base, optional=mod == "?", multi=mod in ("+", "*"), default=default, argstr=it["option"] if form == "opt" else "", out=bool(it.get("out")), path_template=None)
+            if it.get("out"):
+                d["path_template"] = it["path_template"] if mod == "$" else it["name"] + TYPE_EXT.get(base, "")
+                if mod != "?":
+                    d["default"] = ("template",)  # "If paths to output files are not provided ... it will default to the name of the field"
+        d["index"] = i + 1
+        out[it["name"]] = d
+    return out
+
+
+def tmpl_argv(executable, items, values, out_dir):
+    """argv of a task defined from the template: the executable, then 'the template's options and
+    arguments in template order'.  values: name -> value (missing = not provided).  Returns the
+    list of admissible argvs."""
+    fields = tmpl_fields(items)
+    argv = exe_tokens(executable)
+    for it in items:
+        d = fields[it["name"]]
+        provided = it["name"] in values and values[it["name"]] is not None
+        v = values.get(it["name"])
+        if not provided:
+            kind = d["default"][0]
+            if kind == "value":
+                v = d["default"][1]
+            elif kind == "template":
+                v = os.path.join(os.fspath(out_dir), d["path_template"])
+            elif kind in ("none", "empty-list"):
+                continue
+            else:
+                raise ValueError("mandatory field %s not provided" % it["name"])
+        if d["base"] == "bool" and it["form"] == "flag":
+            if v is True:
+                argv.append(d["argstr"])
+            continue
+        def words(e):
+            # "Tuple fields are specified by comma separated types": the items of a tuple are
+            # consecutive arguments (`--multi-opt 1 2`)
+            return [render(i) for i in e] if isinstance(e, (tuple, list)) and "," in d["base"] else [render(e)]
+
+        if d["multi"]:
+            for e in v:
+                # "for options, this signifies that the flag itself is printed multiple times"
+                argv += ([d["argstr"]] if d["argstr"] else []) + words(e)
+        else:
+            argv += ([d["argstr"]] if d["argstr"] else []) + words(v)
+    return [argv]
+
+
+# --------------------------------------------------------------------------------------
+# C26 : output path templates
+# --------------------------------------------------------------------------------------
+# Property text: "Output files named by path templates always resolve to paths inside the job's
+# own cache directory, as a deterministic function of the input values (keeping or dropping the
+# input file's extension as declared); an explicitly supplied output path is used as given."
+# `path_template` doc: "The template used to specify where the output file will be written to can
+# use other fields, e.g. {file1}."
+
+
+def strictly_inside(path, directory):
+    """lexically normalised `path` denotes something strictly below `directory`"""
+    p = os.path.normpath(os.fspath(path))
+    d = os.path.normpath(os.fspath(directory))
+    return p != d and os.path.commonpath([p, d]) == d and os.path.isabs(p)
+
+
+def ext_readings(filename):
+    """'the input file's extension' of a file NAME: everything from the first dot (all suffixes,
+    'data.tar.gz' -> '.tar.gz') or only the last suffix ('.gz'); no dot -> no extension"""
+    core = filename.lstrip(".")
+    lead = filename[: len(filename) - len(core)]
+    if "." not in core:
+        return [(filename, "")]
+    first = core.split(".", 1)
+    last = core.rsplit(".", 1)
+    out = [(lead + first[0], "." + first[1])]
+    if last != first:
+        out.append((lead + last[0], "." + last[1]))
+    return out
+
+
+def _placeholders(template):
+    import re
+
+    return re.findall(r"{(\w+)(?::[^{}]*)?}", template)
+
+
+def template_names(template, refs, keep_extension):
+    """acceptable FILE NAMES (last path component inside the job directory) for one formatted
+    template.  refs: name -> value where a file input is given as ('file', <file name>) and any
+    other value (str / int / float) as itself.  At most one file may be referenced.
+    Returns a set of names; an empty set means 'no name can be demanded' (the formatted text has
+    no usable last component)."""
+    import re
+
+    used = _placeholders(template)
+    files = [n for n in used if isinstance(refs[n], tuple) and refs[n][0] == "file"]
+    plain = {n: v for n, v in refs.items() if not (isinstance(v, tuple) and v[0] == "file")}
+    texts = set()
+    if not files:
+        texts.add(template.format(**plain))
+    else:
+        (fname,) = set(files)
+        filename = refs[fname][1]
+        ph = re.compile(r"{%s}" % re.escape(fname))
+        after = template[template.rindex("{" + fname + "}") + len(fname) + 2 :]
+        # literal template text after the file field, format specs of other fields removed
+        after_literal = re.sub(r"{[^{}]*}", "", after)
+        own_ext = "." in after_literal
+        for stem, ext in ext_readings(filename):
+
+            def fmt(sub):
+                return ph.sub(lambda m: sub.replace("{", "{{").replace("}", "}}"), template).format(**plain)
+
+            if not keep_extension:
+                texts.add(fmt(stem))  # "dropping the input file's extension"
+            elif own_ext:
+                # the template spells its own extension: it replaces the input's, or the input
+                # name is used whole
+                texts.add(fmt(stem))
+                texts.add(fmt(filename))
+            else:
+                # "keeping the input file's extension": in place, or moved to the end of the name
+                texts.add(fmt(filename))
+                texts.add(fmt(stem) + ext)
+    names = set()
+    for t in texts:
+        last = os.path.basename(os.path.normpath(t)) if t else ""
+        if last not in ("", ".", ".."):
+            names.add(last)
+    return names
